@@ -74,11 +74,20 @@ def _const_f(F, name):
     return None
 
 
+_CUR_F = [None]
+
+
 def _num(e):
     e = unwrap(e)
     if not isinstance(e, dict):
         return None
     v = lit_value(e)
+    if v is None and e.get("k") == "Path" and e.get("res", {}).get("dk") in ("Const", "Static") and _CUR_F[0] is not None:
+        # a named constant (`const FIRST_SERIAL_AFTER_FAKE_LEAP_DAY: f64 = 60.0`)
+        from .kit import path_def, norm
+        for c in _CUR_F[0].consts:
+            if norm(c["def"]) == path_def(e) and c.get("body") is not None:
+                return _num(c["body"])
     if isinstance(v, (int, float)) and not isinstance(v, bool):
         return float(v)
     if e.get("k") == "Lit":
@@ -105,6 +114,7 @@ def r_c11_conv(ctx, rep):
     from .kit import path_local, field_chain, walk_anc
     T = load_table("tables/dates.json")
     F = ctx.facts("dates")
+    _CUR_F[0] = F
     dt = F.fn("datatype::ExcelDateTime::as_datetime")
     du = F.fn("datatype::ExcelDateTime::as_duration")
     if dt is None or du is None:
